@@ -160,6 +160,10 @@ def compute_features_2d(sigs, fs, f_range, compute_features_kwargs=None, axis=0,
                 elif burst_method == 'amp':
                     dfs_features[idx] = detect_bursts_amp(dfs_features[idx], **thresholds)
 
+                else:
+                    raise ValueError('Invalid argument for "burst_method".'
+                                     'Either "cycles" or "amp" must be specified."')
+
     else:
         raise ValueError("The axis kwarg must be either 0 or None.")
 
